@@ -236,6 +236,35 @@ def run_shard(spec, acc):
                 if o[0] != "reject":
                     acc.violation("zero-accepted-after-endseqno-zero", f"{f.ftype} field {f.name}({tag}): '0' -> {o} after EndSeqNo=0 was validated on the same schema",
                                   {"field": f.name, "value": "0"}, f"zero-after:{tag}")
+        # the same through whole messages (FIXSchema.validate): an open-ended ResendRequest validates, and afterwards the same schema
+        # object still refuses zero in BeginSeqNo / NewSeqNo / RefSeqNum / the header's MsgSeqNum
+        from asyncfix import FIXMessage
+        from asyncfix.errors import FIXMessageError
+        for si, sch in enumerate(schemas):
+            def mv(m_):
+                try:
+                    return ("accept",) if sch.validate(m_) is True else ("other",)
+                except FIXMessageError as e:
+                    return ("reject", str(e)[:80])
+                except Exception as e:      # noqa: BLE001
+                    return ("raised", type(e).__name__)
+            hdr = {8: "FIX.4.4", 9: 100, 49: "S", 56: "T", 34: 5, 52: "20240101-00:00:00.000", 10: "000"}
+            ok = mv(FIXMessage("2", {7: 1, 16: 0}))
+            acc.oracle("endseqno-zero")
+            acc.case(("msg-endseqno", si))
+            if ok[0] != "accept":
+                acc.violation("endseqno-special-case", f"ResendRequest(7=1, 16=0) through FIXSchema.validate -> {ok}", {"schema": si}, f"msg-endseqno:{si}")
+                continue
+            for label, m_ in (("BeginSeqNo", FIXMessage("2", {7: 0, 16: 5})), ("NewSeqNo", FIXMessage("4", {36: 0})), ("NewSeqNo+GapFill", FIXMessage("4", {123: "Y", 36: 0})),
+                              ("RefSeqNum", FIXMessage("3", {45: 0, 58: "x"})), ("header MsgSeqNum", FIXMessage("0", {**hdr, 34: 0}))):
+                acc.oracle("endseqno-zero")
+                acc.case(("msg-zero-after-endseqno", si, label))
+                o = mv(m_)
+                if o[0] == "accept":
+                    acc.violation("zero-accepted-after-endseqno-zero", f"{label}=0 accepted by FIXSchema.validate after a ResendRequest with EndSeqNo=0 was validated on the same schema",
+                                  {"field": label, "value": "0"}, f"msg-zero-after:{si}:{label}")
+                elif o[0] not in ("reject",):
+                    acc.violation("validate-raised-other", f"{label}=0 -> {o}", {"field": label}, f"msg-zero-after:{si}:{label}")
     # ---- enumerated fields
     eidx = 0
     for si, sch in enumerate(schemas):
